@@ -12,7 +12,7 @@
    other loops are guarded by constants (<= 255 / 32 / 12 / 64 / 8) which the size clauses make explicit. *)
 From V.lib Require Import Base.
 From V.c13 Require Import C13Model.
-From V.c15 Require Import C15Model.
+From V.c15 Require Import C15Model C15Avc2Model.
 From V.c16 Require Import C16SeiProofs C16ParseModel C16ParseProofs C16ParseErProofs C16ParseSimProofs.
 From V.c16 Require Import C16SeiNaluModel C16SeiNaluProofs.
 
@@ -118,10 +118,12 @@ Theorem C16_avc_ParsePPSNALUnit_agrees_with_C15_model : forall (spsmap : N -> op
 Proof. exact c16_parse_pps_agrees. Qed.
 Print Assumptions C16_avc_ParsePPSNALUnit_agrees_with_C15_model.
 
+(* the slice header: against C15Avc2Model.parse_slice_header2, C15's model of the repaired text (/repo 174cc8e:
+   slice_group_change_cycle width from the SPS's PicSizeInMapUnits) *)
 Theorem C16_avc_ParseSliceHeader_agrees_with_C15_model :
   forall (spsmap : N -> option sps) (ppsmap : N -> option pps) (nalu : list N),
-  parse_slice_er spsmap ppsmap nalu <> OutOfFuel ->
-  c16_parse_slice spsmap ppsmap nalu = parse_slice_er spsmap ppsmap nalu.
+  parse_slice2_er spsmap ppsmap nalu <> OutOfFuel ->
+  c16_parse_slice spsmap ppsmap nalu = parse_slice2_er spsmap ppsmap nalu.
 Proof. exact c16_parse_slice_agrees. Qed.
 Print Assumptions C16_avc_ParseSliceHeader_agrees_with_C15_model.
 
